@@ -36,8 +36,13 @@ Apply(cfg, it) ==
   CASE it.op = "set"   -> [cfg EXCEPT ![it.f] = it.v]
     [] it.op = "app"   -> [cfg EXCEPT ![it.f] = (IF @ \in {NoneV, Unset} THEN << >> ELSE @) \o it.v]
     [] it.op = "group" -> SetAll(cfg, it.gv)
+    [] it.op = "graw"  -> cfg
 RECURSIVE Fold(_, _)
 Fold(cfg, items) == IF items = << >> THEN cfg ELSE Fold(Apply(cfg, Head(items)), Tail(items))
+
+\* "graw": the key of the group holds something that is NOT a mapping ({"g": 5}, an empty YAML section "g:", {"g": [1, 2]}).
+\* The documentation does not say what that means; the property only demands that the four styles treat it alike.
+Unspecified(items) == \E j \in 1..Len(items) : items[j].op = "graw"
 
 \* Ref: rejected iff some value has the wrong type or a field without default was never given
 Err == [ok |-> FALSE, cfg |-> << >>]
